@@ -13,6 +13,7 @@ import (
 	"context"
 
 	"github.com/facebookincubator/dns/dnsrocks/db"
+	"github.com/facebookincubator/dns/dnsrocks/dnsdata/rdb"
 	"github.com/facebookincubator/dns/dnsrocks/zzverif/nd"
 	"github.com/fsnotify/fsnotify"
 	"github.com/miekg/dns"
@@ -20,7 +21,7 @@ import (
 
 //verif:include ../dnsdata/rdb/zz_verif_model.go
 //verif:include ../db/zz_verif_world.go
-//verif:harness H14_hb property=C14 native=no quick=layout=2,sched=0,watch=0,cache=0,pre=0;layout=0,sched=0,watch=0,cache=1,pre=0;layout=1,sched=0,watch=1,cache=1,pre=0;layout=2,sched=1,watch=0,cache=0,pre=1;layout=2,sched=1,watch=0,cache=0,pre=2;layout=1,sched=1,watch=0,cache=0,pre=2 thorough=layout=2,sched=0,watch=1,cache=1,pre=0;layout=0,sched=0,watch=1,cache=0,pre=0;layout=2,sched=1,watch=0,cache=0,pre=0;layout=0,sched=2,watch=0,cache=1,pre=1
+//verif:harness H14_hb property=C14 native=no quick=layout=2,sched=0,watch=0,cache=0,pre=0;layout=0,sched=0,watch=0,cache=1,pre=0;layout=1,sched=0,watch=1,cache=1,pre=0;layout=2,sched=1,watch=0,cache=0,pre=1;layout=2,sched=1,watch=0,cache=0,pre=2;layout=1,sched=1,watch=0,cache=0,pre=3 thorough=layout=1,sched=1,watch=0,cache=0,pre=2;layout=2,sched=1,watch=0,cache=0,pre=3;layout=2,sched=0,watch=1,cache=1,pre=0;layout=0,sched=0,watch=1,cache=0,pre=0;layout=2,sched=1,watch=0,cache=0,pre=0;layout=0,sched=2,watch=0,cache=1,pre=1
 
 func H14_hb() {
 	verifLayout = nd.Param("layout")
@@ -75,7 +76,8 @@ func H14_hb() {
 			done <- struct{}{}
 		},
 	}
-	if nd.Param("pre") == 2 {
+	rdb.VerifCrashOnUseAfterClose = true
+	if p := nd.Param("pre"); p == 2 || p == 3 {
 		// a query pre-empted inside a storage operation (it may hold a pooled iterator) while a
 		// partial reload disables and re-enables the iterator pool
 		tasks = []func(){tasks[1], func() {
@@ -86,6 +88,12 @@ func H14_hb() {
 				m.Primary = db.VerifPrimaryOf(snap)
 			}
 			_ = env.h.Reload(*NewPartialReloadSignal())
+			if nd.Param("pre") == 3 {
+				// ... followed by a switch to another database: the back end the query still
+				// holds must stay open until the query releases it
+				verifPathGen["/db/gen2"] = 2
+				_ = env.h.Reload(*NewFullReloadSignal("/db/gen2"))
+			}
 			done <- struct{}{}
 		}}
 	}
